@@ -21,6 +21,7 @@ CASES = [
     ("C16", "TraceEtcd.tla", r'"succ":true(?=.*"succ":\[\{"key":\d,"kind":"put"\}\])=>"succ":false',
      "the answer to a successful put transaction"),
     ("C18", "TraceRoles.tla", r'("e":"Case".*"role":"follower".*)"writes":0=>\1"writes":1', "a follower that wrote"),
+    ("C18", "TraceProxy.tla", r'("a":"Txn","by":"[ab]".*)"ok":true=>\1"ok":false', "a forwarded transaction reported as refused"),
     ("C20", "TraceRequests.tla", r'"live":true=>"live":false', "a liveness probe"),
 ]
 def main():
